@@ -26,6 +26,26 @@ Lemma eval_NAssign_eq f e s name v : eval (S f) e s (NAssign name [61%N] v) =
   end.
 Proof. reflexivity. Qed.
 
+(* the statement loop and the block of Sem.eval, as standalone functions of the evaluator one fuel level down *)
+Definition es_loop (f : nat) : env -> state -> list node -> value -> outcome * env * state :=
+  fix es (e : env) (s : state) (l : list node) (last : value) : outcome * env * state :=
+    match l with
+    | [] => (OVal last, e, s)
+    | x :: r => match eval f e s x with
+                | (OVal v, e', s') => es e' s' r (if is_expression x then v else VNil)
+                | other => other
+                end
+    end.
+Definition eblock (f : nat) (e : env) (s : state) (l : list node) : outcome * env * state :=
+  match es_loop f ([] :: e) s l VNil with (o, _, s') => (o, e, s') end.
+
+Lemma eval_NIf f e s c cns al : eval (S f) e s (NIf c cns (Some al)) =
+  match eval f e s c with
+  | (OVal v, e1, s1) => if truthy s1 v then eblock f e1 s1 cns else eblock f e1 s1 al
+  | other => other
+  end.
+Proof. reflexivity. Qed.
+
 Lemma sbeq_refl (a : list N) : beq a a = true.
 Proof. unfold beq. destruct (list_eq_dec N.eq_dec a a); [reflexivity|contradiction]. Qed.
 Lemma sbeq_neq (a b : list N) : a <> b -> beq a b = false.
@@ -93,54 +113,134 @@ Section Names.
   Qed.
 
   (* assigning to a declared variable *)
-  Lemma set_nth_length i v rho : length (P.set_nth i v rho) = length rho.
-  Proof. revert i; induction rho as [|x r IH]; intros [|i]; cbn; auto. Qed.
-  Lemma nth_set_nth_same i v rho d : i < length rho -> nth i (P.set_nth i v rho) d = v.
-  Proof. revert i; induction rho as [|x r IH]; intros [|i] H; cbn in *; try lia; [reflexivity|apply IH; lia]. Qed.
-  Lemma nth_set_nth_other i j v rho d : i <> j -> nth j (P.set_nth i v rho) d = nth j rho d.
-  Proof. revert i j; induction rho as [|x r IH]; intros [|i] [|j] H; cbn; try reflexivity; try lia. apply IH. lia. Qed.
-
   Lemma sem_inv_set rho e s i v : sem_inv rho e s -> i < length rho ->
     sem_inv (P.set_nth i v rho) e (set_store s (2 + i) (inj v)).
   Proof.
     intros [Hl [Hne [Hst H]]] Hi. unfold sem_inv, set_store. cbn [store].
-    split; [rewrite set_nth_length; exact Hl|]. split; [exact Hne|].
-    split; [rewrite length_list_set, set_nth_length; exact Hst|].
-    intros j Hj. rewrite set_nth_length in Hj. destruct (H j Hj) as [Hk Hv]. split; [exact Hk|].
+    split; [rewrite PF.set_nth_length; exact Hl|]. split; [exact Hne|].
+    split; [rewrite length_list_set, PF.set_nth_length; exact Hst|].
+    intros j Hj. rewrite PF.set_nth_length in Hj. destruct (H j Hj) as [Hk Hv]. split; [exact Hk|].
     destruct (Nat.eq_dec j i) as [->|Hd].
-    - rewrite nth_list_set_same by lia. rewrite nth_set_nth_same by lia. reflexivity.
-    - rewrite nth_list_set_other by lia. rewrite nth_set_nth_other by lia. exact Hv.
+    - rewrite nth_list_set_same by lia. rewrite PF.nth_set_nth_same by lia. reflexivity.
+    - rewrite nth_list_set_other by lia. rewrite PF.nth_set_nth_other by lia. exact Hv.
   Qed.
-  (* ---------------------------------------------------------------- one statement *)
+
+  (* entering and leaving a block: an empty scope on top changes nothing the invariant talks about *)
+  Lemma sem_inv_push rho e s : sem_inv rho e s -> sem_inv rho ([] :: e) s.
+  Proof. intros [Hl [Hne [Hst H]]]. split; [exact Hl|]. split; [discriminate|]. split; [exact Hst|]. exact H. Qed.
+  Lemma sem_inv_pop rho e s : e <> [] -> sem_inv rho ([] :: e) s -> sem_inv rho e s.
+  Proof. intros Hne [Hl [_ [Hst H]]]. split; [exact Hl|]. split; [exact Hne|]. split; [exact Hst|]. exact H. Qed.
+
+  (* ---------------------------------------------------------------- the statements of a branch *)
+  Lemma eval_simple rho e s m f :
+    sem_inv rho e s -> P.wf_simple (length rho) m = true -> F.height (P.simple_exp m) <= f ->
+    match P.run_simple rho m with
+    | inr x => exists s', eval (S f) e s (P.embed_simple names m) = (lift (inr x), e, s')
+    | inl (rho', v) => exists s', eval (S f) e s (P.embed_simple names m) = (OVal (inj v), e, s') /\ sem_inv rho' e s'
+    end.
+  Proof.
+    intros Hinv Hwf Hf. pose proof (sem_inv_env_ok rho e s Hinv) as Henv.
+    destruct m as [i x|x]; cbn [P.embed_simple P.wf_simple P.simple_exp P.run_simple] in *.
+    - apply andb_true_iff in Hwf. destruct Hwf as [Hi Hwf]. apply Nat.ltb_lt in Hi.
+      rewrite eval_NAssign_eq, (sem_scalar names rho x f e s Hf Hwf Henv).
+      destruct (F.sev rho x) as [v|[|]]; cbn [lift]; try (eexists; reflexivity).
+      destruct Hinv as [Hl [Hne [Hst H]]]. destruct (H i Hi) as [Hlk _]. rewrite Hlk.
+      eexists. split; [reflexivity|].
+      exact (sem_inv_set rho e s i v (conj Hl (conj Hne (conj Hst H))) Hi).
+    - rewrite (sem_scalar names rho x (S f) e s ltac:(lia) Hwf Henv).
+      destruct (F.sev rho x) as [v|[|]]; cbn [lift]; try (eexists; reflexivity).
+      exists s. split; [reflexivity|exact Hinv].
+  Qed.
+
+  Lemma simple_last m v : (if is_expression (P.embed_simple names m) then inj v else VNil) =
+                          inj (match m with P.MExpr _ => v | _ => F.VNil end).
+  Proof. destruct m; cbn [P.embed_simple]; [reflexivity|rewrite PF.embed_is_expression; reflexivity]. Qed.
+
+  Lemma run_simple_value rho m rho' v : P.run_simple rho m = inl (rho', v) ->
+    v = match m with P.MExpr _ => v | _ => F.VNil end.
+  Proof. destruct m as [i x|x]; cbn [P.run_simple]; destruct (F.sev rho x); intros H; inversion H; reflexivity. Qed.
+
+  Lemma es_simples f : forall l rho e s last,
+    sem_inv rho e s -> forallb (P.wf_simple (length rho)) l = true -> P.simples_height l <= f ->
+    match P.run_simples rho l last with
+    | inr x => exists e' s', es_loop (S f) e s (map (P.embed_simple names) l) (inj last) = (lift (inr x), e', s')
+    | inl (rho', v) => exists s', es_loop (S f) e s (map (P.embed_simple names) l) (inj last) = (OVal (inj v), e, s') /\
+                                  sem_inv rho' e s'
+    end.
+  Proof.
+    induction l as [|m r IH]; intros rho e s last Hinv Hwf Hh.
+    - exists s. split; [reflexivity|exact Hinv].
+    - cbn [forallb] in Hwf. apply andb_true_iff in Hwf. destruct Hwf as [Hw0 Hwr].
+      change (P.simples_height (m :: r)) with (Nat.max (F.height (P.simple_exp m)) (P.simples_height r)) in Hh.
+      rewrite PF.run_simples_cons. cbn [map es_loop]. fold (es_loop (S f)).
+      pose proof (eval_simple rho e s m f Hinv Hw0 ltac:(lia)) as He.
+      destruct (P.run_simple rho m) as [[rho1 v1]|x] eqn:Er.
+      + destruct He as [s1 [He Hinv1]]. rewrite He, simple_last.
+        rewrite <- (run_simple_value rho m rho1 v1 Er).
+        rewrite <- (PF.run_simple_length rho m rho1 v1 Er) in Hwr.
+        exact (IH rho1 e s1 v1 Hinv1 Hwr ltac:(lia)).
+      + destruct He as [s1 He]. rewrite He. exists e, s1. destruct x; reflexivity.
+  Qed.
+
+  Lemma eblock_simples f l rho e s :
+    sem_inv rho e s -> forallb (P.wf_simple (length rho)) l = true -> P.simples_height l <= f ->
+    match P.run_simples rho l F.VNil with
+    | inr x => exists s', eblock (S f) e s (map (P.embed_simple names) l) = (lift (inr x), e, s')
+    | inl (rho', v) => exists s', eblock (S f) e s (map (P.embed_simple names) l) = (OVal (inj v), e, s') /\ sem_inv rho' e s'
+    end.
+  Proof.
+    intros Hinv Hwf Hh. unfold eblock.
+    pose proof (es_simples f l rho ([] :: e) s F.VNil (sem_inv_push rho e s Hinv) Hwf Hh) as H.
+    destruct Hinv as [Hl [Hne Hrest]].
+    destruct (P.run_simples rho l F.VNil) as [[rho' v]|x].
+    - destruct H as [s' [H Hinv']]. change (inj F.VNil) with VNil in H. rewrite H.
+      exists s'. split; [reflexivity|exact (sem_inv_pop rho' e s' Hne Hinv')].
+    - destruct H as [e' [s' H]]. change (inj F.VNil) with VNil in H. rewrite H. exists s'. reflexivity.
+  Qed.
+
+  (* ---------------------------------------------------------------- one top-level statement *)
   Lemma eval_stmt rho e s st f :
     sem_inv rho e s -> PF.wf_stmt (length rho) st = true -> PF.next_k (length rho) st <= length names ->
-    F.height (P.stmt_exp st) <= f ->
-    match F.sev rho (P.stmt_exp st) with
-    | inr x => eval (S f) e s (PF.embed_stmt names (length rho) st) = (lift (inr x), e, s)
-    | inl v => exists e' s',
-        eval (S f) e s (PF.embed_stmt names (length rho) st) = (OVal (inj (PF.stmt_value st v)), e', s') /\
-        sem_inv (PF.next_rho rho st v) e' s'
+    P.stmt_height st <= f ->
+    match P.run_stmt rho st with
+    | inr x => exists e' s', eval (S f) e s (PF.embed_stmt names (length rho) st) = (lift (inr x), e', s')
+    | inl (rho', v) => exists e' s',
+        eval (S f) e s (PF.embed_stmt names (length rho) st) = (OVal (inj v), e', s') /\ sem_inv rho' e' s'
     end.
   Proof.
     intros Hinv Hwf Hk Hf. pose proof (sem_inv_env_ok rho e s Hinv) as Henv.
-    destruct st as [x|i x|x]; cbn [PF.embed_stmt PF.wf_stmt PF.next_k P.stmt_exp PF.next_rho PF.stmt_value] in *.
+    destruct st as [x|i x|x|c t el]; cbn [PF.embed_stmt PF.wf_stmt PF.next_k P.stmt_height P.run_stmt] in *.
     - (* x := e *)
       rewrite eval_NVar, (sem_scalar names rho x f e s Hf Hwf Henv).
-      destruct (F.sev rho x) as [v|[|]]; cbn [lift]; try reflexivity.
+      destruct (F.sev rho x) as [v|[|]]; cbn [lift]; try (eexists; eexists; reflexivity).
       eexists. eexists. split; [reflexivity|].
       destruct Hinv as [Hl [Hne [Hst H]]].
       exact (sem_inv_decl rho e s v (conj Hl (conj Hne (conj Hst H))) ltac:(lia)).
     - (* x = e *)
-      apply andb_true_iff in Hwf. destruct Hwf as [Hi Hwf]. apply Nat.ltb_lt in Hi.
-      rewrite eval_NAssign_eq, (sem_scalar names rho x f e s Hf Hwf Henv).
-      destruct (F.sev rho x) as [v|[|]]; cbn [lift]; try reflexivity.
-      destruct Hinv as [Hl [Hne [Hst H]]]. destruct (H i Hi) as [Hlk _]. rewrite Hlk.
-      eexists. eexists. split; [reflexivity|].
-      exact (sem_inv_set rho e s i v (conj Hl (conj Hne (conj Hst H))) Hi).
+      pose proof (eval_simple rho e s (P.MSet i x) f Hinv Hwf Hf) as H. cbn [P.run_simple P.embed_simple] in H.
+      destruct (F.sev rho x) as [v|xx].
+      + destruct H as [s' [H Hinv']]. exists e, s'. split; assumption.
+      + destruct H as [s' H]. exists e, s'. exact H.
     - (* e *)
-      rewrite (sem_scalar names rho x (S f) e s ltac:(lia) Hwf Henv).
-      destruct (F.sev rho x) as [v|[|]]; cbn [lift]; try reflexivity.
-      exists e, s. split; [reflexivity|exact Hinv].
+      pose proof (eval_simple rho e s (P.MExpr x) f Hinv Hwf Hf) as H. cbn [P.run_simple P.embed_simple] in H.
+      destruct (F.sev rho x) as [v|xx].
+      + destruct H as [s' [H Hinv']]. exists e, s'. split; assumption.
+      + destruct H as [s' H]. exists e, s'. exact H.
+    - (* if *)
+      apply andb_true_iff in Hwf. destruct Hwf as [Hwct Hwe]. apply andb_true_iff in Hwct. destruct Hwct as [Hwc Hwt].
+      destruct f as [|f]; [lia|]. destruct f as [|f]; [lia|].
+      rewrite eval_NIf, (sem_scalar names rho c (S (S f)) e s ltac:(lia) Hwc Henv).
+      destruct (F.sev rho c) as [vc|[|]]; cbn [lift]; try (eexists; eexists; reflexivity).
+      rewrite truthy_inj.
+      destruct (F.struthy vc).
+      + pose proof (eblock_simples (S f) t rho e s Hinv Hwt ltac:(lia)) as H.
+        destruct (P.run_simples rho t F.VNil) as [[rho' v]|xx].
+        * destruct H as [s' [H Hinv']]. exists e, s'. split; assumption.
+        * destruct H as [s' H]. exists e, s'. exact H.
+      + pose proof (eblock_simples (S f) el rho e s Hinv Hwe ltac:(lia)) as H.
+        destruct (P.run_simples rho el F.VNil) as [[rho' v]|xx].
+        * destruct H as [s' [H Hinv']]. exists e, s'. split; assumption.
+        * destruct H as [s' H]. exists e, s'. exact H.
   Qed.
 
   (* ---------------------------------------------------------------- the statement loop of Sem.run *)
@@ -154,8 +254,15 @@ Section Names.
                   end
       end.
 
-  Lemma stmt_last st k v : (if is_expression (PF.embed_stmt names k st) then inj (PF.stmt_value st v) else VNil) = inj (PF.stmt_value st v).
-  Proof. destruct st; cbn [PF.embed_stmt PF.stmt_value]; try reflexivity. rewrite PF.embed_is_expression. reflexivity. Qed.
+  Lemma run_stmt_value rho st rho' v : P.run_stmt rho st = inl (rho', v) ->
+    (if is_expression (PF.embed_stmt names (length rho) st) then inj v else VNil) = inj v.
+  Proof.
+    destruct st as [x|i x|x|c t el]; cbn [P.run_stmt PF.embed_stmt].
+    - destruct (F.sev rho x); intros H; inversion H; reflexivity.
+    - destruct (F.sev rho x); intros H; inversion H; reflexivity.
+    - intros _. rewrite PF.embed_is_expression. reflexivity.
+    - intros _. reflexivity.
+  Qed.
 
   Lemma go_program f : forall l rho e s last,
     sem_inv rho e s -> P.wf_stmts (length rho) l = true -> length rho + P.ndecls l <= length names ->
@@ -168,12 +275,11 @@ Section Names.
     assert (Hnk : PF.next_k (length rho) st <= length names) by (rewrite <- PF.ndecls_cons in Hn; lia).
     pose proof (eval_stmt rho e s st f Hinv Hws Hnk ltac:(lia)) as He.
     cbn [go_loop]. fold (go_loop (S f)).
-    destruct (F.sev rho (P.stmt_exp st)) as [v|x].
-    - destruct He as [e' [s' [He Hinv']]]. rewrite He, stmt_last.
-      assert (Hlen : length (PF.next_rho rho st v) = PF.next_k (length rho) st).
-      { destruct st; cbn [PF.next_rho PF.next_k]; [rewrite app_length; cbn; lia|apply set_nth_length|reflexivity]. }
+    destruct (P.run_stmt rho st) as [[rho' v]|x] eqn:Er.
+    - destruct He as [e' [s' [He Hinv']]]. rewrite He, (run_stmt_value rho st rho' v Er).
+      pose proof (PF.run_stmt_length rho st rho' v Er) as Hlen.
       rewrite <- Hlen. apply IH; [exact Hinv'|rewrite Hlen; exact Hwr|rewrite Hlen, PF.ndecls_cons; exact Hn|lia].
-    - rewrite He. destruct x; reflexivity.
+    - destruct He as [e' [s' He]]. rewrite He. destruct x; reflexivity.
   Qed.
 
   Lemma predeclare_none : forall l k acc,
@@ -184,7 +290,7 @@ Section Names.
   Proof.
     induction l as [|st r IH]; intros k acc; [reflexivity|].
     rewrite PF.embed_stmts_cons. cbn [fold_left].
-    destruct st as [x|i x|x]; cbn [PF.embed_stmt]; try apply IH.
+    destruct st as [x|i x|x|c t el]; cbn [PF.embed_stmt]; try apply IH.
     destruct x; cbn [F.embed]; apply IH.
   Qed.
 
